@@ -28,6 +28,22 @@ the lone-'{' radical operand for brace-free trees).  Only *instances* of
   H(s[:a]) + H(s[a:b]) + H(s[b:]) = H(s),  H(sep.join(xs)) = sum H(x) + (n-1) H(sep),  H >= 0
 are used (no quantifiers); they are theorems of the string semantics and are
 listed as assumptions because LB/RB/NW are uninterpreted for the solver.
+
+Round 7 (content, deductive).  Summarised string lists carry two CONTENT ghosts: `cat` (the concatenation of the
+items = what "".join returns) and `items` (the item sequence, z3 Seq(String); sep.join(xs) is the term SJOIN(sep, items)).
+  * convert_greek_and_symbols: `ensures#is-the-charwise-map-of-its-argument` -- result == CONV(text) where CONV is the
+    DEFINED spec function CONV("") = "", CONV(s ++ c) = CONV(s) ++ G1(c), G1 = table lookup else identity (instances on the
+    prefixes of the iterated string).  The former ASSUMED "CONV is a function of its argument" is implied by it.
+  * loops over an Element (default branch of the worker, top-level loop): history ghost CH(e, i) of the loop execution,
+    invariant content(acc) == content(acc at entry) ++ CH(e, i); every iteration makes exactly ONE worker call, on child i,
+    and the accumulator gains exactly its result.  `ensures#template.default-children-in-order` (worker) and
+    `ensures#children-results-in-order-then-closer` (omml_to_latex).
+  * loops / comprehensions over e.findall(T) that call the worker: items(acc) == items(acc at entry) ++ RS(e, i);
+    a loop over rows whose ONE inner loop calls the worker: item i == ' & '.join(results on the cells of row i).
+    `ensures#template.d-operands-in-order`, `ensures#template.m-cells-in-order`.
+  Whether a loop carries a content claim is decided on its syntax before the body runs (`direct_worker_call`), so the claim
+  holds on every path or is not made at all.  The defining equations of the history ghosts are added to the path by the
+  invariant function itself (`content_conj` / `items_conj`): they define fresh function symbols, nothing about the code.
 """
 import ast
 
@@ -1986,7 +2002,8 @@ ASSUMED_MODELS = [
     "iteration over an Element = its children in order; TREE-FINITE (subtree size decreases)",
     "Element.itertext(): a finite sequence of str (brace-free in a brace-free tree), never raises",
     "str.split(sep): at least one part; str.strip(): removes only whitespace; str.index(sub): lowest occurrence or ValueError",
-    "sep.join(list of str): counts add up (+ (n-1) * count(sep))",
+    "sep.join(list of str): counts add up (+ (n-1) * count(sep)); ''.join(xs) = the concatenation of the items in list order; "
+    "sep.join(xs) is a function of sep and the item sequence (named SJOIN, never unfolded)",
 ]
 # round 7: "convert_greek_and_symbols is a function of its argument (CONV) at call sites" is no longer assumed: CONV is the
 # DEFINED char-wise map and `ensures#is-the-charwise-map-of-its-argument` proves result == CONV(text) on the real body; the
@@ -2003,8 +2020,11 @@ BOUNDED = ["replay grammar (round 4): every structure nested in every operand sl
            "levels deep (level-dependent behaviour: recursion guards, budgets); deeper nesting is not searched",
            "order of the formula lists built at the docx / pptx call sites (display equations first, document order): "
            "native comparison on the container scope of replay/C19.py::site_scope, not proved",
-           "run texts emitted exactly once and in source order: checked natively by replay/C19.py on all schema-shaped "
-           "trees up to depth 2 / width 2 (small scope), not proved",
+           "run texts emitted exactly once and in source order FOR A WHOLE TREE: checked natively by replay/C19.py on all schema-shaped "
+           "trees up to depth 2 / width 2 (small scope). Round 7 proves the per-node steps on the real bodies (convert_greek_and_symbols "
+           "== the char-wise map; m:t == that map of its text; every structure == its documented form of the worker results on its "
+           "operands; m:d / m:m operands, rows and cells each once in document order; every other element and the root == the results "
+           "on its children each once in document order); the structural induction that composes them over the tree is NOT mechanised",
            "determinism beyond the syntactic policy obligations: double-run comparison in replay/C19.py (small scope)"]
 
 LOCK_OPTIONAL_KINDS = ("inv-init", "inv-preserve", "decreases", "call-pre")   # exist only while the code has the construct
